@@ -76,7 +76,9 @@ func toValue(r interface{}, out reflect.Type, isVariadic bool) (reflect.Value, e
 // cast 将reflect.Value类型强制转换为执行type类型的reflect.Value
 func cast(v reflect.Value, typ reflect.Type) reflect.Value {
 	originV := (*hack.Value)(unsafe.Pointer(&v))
-	newV := reflect.NewAt(typ, originV.Ptr).Elem()
+	// only the type word of newV is used; do not look through originV.Ptr, which is nil
+	// for a typed nil pointer (or a nil pointer-shaped struct)
+	newV := reflect.Zero(typ)
 	newVHack := (*hack.Value)(unsafe.Pointer(&newV))
 	v = *(*reflect.Value)(unsafe.Pointer(&hack.Value{
 		Typ:  newVHack.Typ,
